@@ -459,10 +459,10 @@ def hex_mesh(rng, style=None, renum=True, build=True):
 
 
 # ------------------------------------------------------------------ prisms
-def wedge_mesh(rng, renum=True, build=True, local=False):
+def wedge_mesh(rng, renum=True, build=True, local=True):
     """Extruded prisms.  `local=True` additionally applies a cyclic shift of the local vertex order
-    per cell (off by default: the library's padded triangular facets depend on the start vertex,
-    a recorded finding of C11)."""
+    per cell (on by default since the library's facet tables no longer depend on the start vertex of a padded
+    triangular facet, the former finding of C11)."""
     import skfem
     tp, tt, _ = tri_mesh(rng, n=int(rng.integers(4, 10)), style=str(rng.choice(["jitter", "tensor"])),
                          renum=False, holes=False, build=False)
